@@ -955,12 +955,12 @@ Section CastTyping.
     intros Hraw Hv. unfold value_import. destruct (rv_is_nil v); [exact I|].
     assert (Hs : tw_cell (fst match import_scalar O f typ v with
                               | Ok r => (CVal r f typ, Ok tt)
-                              | Err e => (CVal rnil f typ, Err e)
+                              | Err e => (CVal (match f with FBad => raw | _ => rnil end) f typ, Err e)
                               | Panic => (CVal raw f typ, Panic)
                               | Fuel => (CVal raw f typ, Fuel)
                               end)).
     { destruct (import_scalar O f typ v) as [r| | |] eqn:E; cbn [fst tw_cell];
-        [eapply import_scalar_typed; eauto | exact I | exact Hraw | exact Hraw]. }
+        [eapply import_scalar_typed; eauto | destruct f; first [exact I | exact Hraw] | exact Hraw | exact Hraw]. }
     destruct v as [g|l|m|c]; try exact Hs. destruct c as [raw' f' typ'|sub]; [exact Hv | exact Hs].
   Qed.
 
